@@ -1429,11 +1429,29 @@ impl Stack {
 
     /// Push a message.
     fn push(&self, msg: Message) {
+        #[cfg(ripgrep_verif)]
+        crate::verif::yield_point(self.index, "push");
+        #[cfg(ripgrep_verif)]
+        let (verif_quit, verif_path) = match msg {
+            Message::Quit => (true, None),
+            Message::Work(ref w) => (false, Some(w.dent.path().to_path_buf())),
+        };
         self.deque.push(msg);
+        #[cfg(ripgrep_verif)]
+        crate::verif::emit(
+            self.index,
+            crate::verif::Event::Push {
+                quit: verif_quit,
+                path: verif_path,
+                own_len: self.deque.len(),
+            },
+        );
     }
 
     /// Pop a message.
     fn pop(&self) -> Option<Message> {
+        #[cfg(ripgrep_verif)]
+        crate::verif::yield_point(self.index, "recv");
         self.deque.pop().or_else(|| self.steal())
     }
 
@@ -1496,11 +1514,49 @@ impl<'s> Worker<'s> {
     /// The worker will call the caller's callback for all entries that aren't
     /// skipped by the ignore matcher.
     fn run(mut self) {
+        #[cfg(ripgrep_verif)]
+        crate::verif::emit(self.stack.index, crate::verif::Event::Start);
         while let Some(work) = self.get_work() {
             if let WalkState::Quit = self.run_one(work) {
                 self.quit_now();
+                #[cfg(ripgrep_verif)]
+                crate::verif::emit(
+                    self.stack.index,
+                    crate::verif::Event::SetQuit,
+                );
             }
         }
+        #[cfg(ripgrep_verif)]
+        crate::verif::emit(self.stack.index, crate::verif::Event::Exit);
+    }
+
+    /// Verification hook: report what a receive returned together with the
+    /// lengths of all deques right after it.
+    #[cfg(ripgrep_verif)]
+    fn verif_recv(&self, value: Option<&Message>) {
+        let (kind, path) = match value {
+            Some(Message::Work(w)) => {
+                ("work", Some(w.dent.path().to_path_buf()))
+            }
+            Some(Message::Quit) => ("quit", None),
+            None => ("none", None),
+        };
+        let lens = self.stack.stealers.iter().map(|s| s.len()).collect();
+        crate::verif::emit(
+            self.stack.index,
+            crate::verif::Event::Recv { kind, path, lens },
+        );
+    }
+
+    /// Verification hook: report the counter after a decrement.
+    #[cfg(ripgrep_verif)]
+    fn verif_deact(&self) {
+        crate::verif::emit(
+            self.stack.index,
+            crate::verif::Event::Deact {
+                remaining: self.active_workers.load(AtomicOrdering::SeqCst),
+            },
+        );
     }
 
     fn run_one(&mut self, mut work: Work) -> WalkState {
@@ -1663,12 +1719,21 @@ impl<'s> Worker<'s> {
     /// should then subsequently quit.
     fn get_work(&mut self) -> Option<Work> {
         let mut value = self.recv();
+        #[cfg(ripgrep_verif)]
+        self.verif_recv(value.as_ref());
         loop {
             // Simulate a priority channel: If quit_now flag is set, we can
             // receive only quit messages.
             if self.is_quit_now() {
                 value = Some(Message::Quit)
             }
+            #[cfg(ripgrep_verif)]
+            crate::verif::emit(
+                self.stack.index,
+                crate::verif::Event::Chk {
+                    quit: matches!(value, Some(Message::Quit)),
+                },
+            );
             match value {
                 Some(Message::Work(work)) => {
                     return Some(work);
@@ -1688,16 +1753,34 @@ impl<'s> Worker<'s> {
                         // activate_worker() below.  For this to happen, every
                         // worker's local deque must be simultaneously empty,
                         // meaning there is no more work left at all.
+                        #[cfg(ripgrep_verif)]
+                        self.verif_deact();
                         self.send_quit();
                         return None;
                     }
+                    #[cfg(ripgrep_verif)]
+                    self.verif_deact();
                     // Wait for next `Work` or `Quit` message.
                     loop {
                         if let Some(v) = self.recv() {
+                            #[cfg(ripgrep_verif)]
+                            self.verif_recv(Some(&v));
                             self.activate_worker();
+                            #[cfg(ripgrep_verif)]
+                            crate::verif::emit(
+                                self.stack.index,
+                                crate::verif::Event::Act,
+                            );
                             value = Some(v);
                             break;
                         }
+                        #[cfg(ripgrep_verif)]
+                        self.verif_recv(None);
+                        #[cfg(ripgrep_verif)]
+                        crate::verif::emit(
+                            self.stack.index,
+                            crate::verif::Event::Sleep,
+                        );
                         // Our stack isn't blocking. Instead of burning the
                         // CPU waiting, we let the thread sleep for a bit. In
                         // general, this tends to only occur once the search is
@@ -1712,11 +1795,15 @@ impl<'s> Worker<'s> {
 
     /// Indicates that all workers should quit immediately.
     fn quit_now(&self) {
+        #[cfg(ripgrep_verif)]
+        crate::verif::yield_point(self.stack.index, "setquit");
         self.quit_now.store(true, AtomicOrdering::SeqCst);
     }
 
     /// Returns true if this worker should quit immediately.
     fn is_quit_now(&self) -> bool {
+        #[cfg(ripgrep_verif)]
+        crate::verif::yield_point(self.stack.index, "chk");
         self.quit_now.load(AtomicOrdering::SeqCst)
     }
 
@@ -1737,11 +1824,15 @@ impl<'s> Worker<'s> {
 
     /// Deactivates a worker and returns the number of currently active workers.
     fn deactivate_worker(&self) -> usize {
+        #[cfg(ripgrep_verif)]
+        crate::verif::yield_point(self.stack.index, "deact");
         self.active_workers.fetch_sub(1, AtomicOrdering::Acquire) - 1
     }
 
     /// Reactivates a worker.
     fn activate_worker(&self) {
+        #[cfg(ripgrep_verif)]
+        crate::verif::yield_point(self.stack.index, "act");
         self.active_workers.fetch_add(1, AtomicOrdering::Release);
     }
 }
